@@ -103,7 +103,7 @@ class contentsSet(GenericEquality):
         if fs.isfs_obj(obj):
             self._dict.pop(obj.location, None)
         else:
-            self._dict.pop(obj, None)
+            self._dict.pop(normpath(obj), None)
 
     def __getitem__(self, obj):
         if fs.isfs_obj(obj):
@@ -132,7 +132,14 @@ class contentsSet(GenericEquality):
             if f(x):
                 yield x.location
             else:
-                yield x
+                yield normpath(x)
+
+    @classmethod
+    def _location_lookup(cls, other):
+        """Convert an iterable of entries and/or paths into something locations can be tested against."""
+        if isinstance(other, contentsSet):
+            return other
+        return set(cls._convert_loc(other))
 
     @staticmethod
     def _ensure_fsbase(iterable):
@@ -143,8 +150,7 @@ class contentsSet(GenericEquality):
             yield x
 
     def difference(self, other):
-        if not hasattr(other, "__contains__"):
-            other = set(self._convert_loc(other))
+        other = self._location_lookup(other)
         return contentsSet(
             (x for x in self if x.location not in other), mutable=self.mutable
         )
@@ -159,21 +165,23 @@ class contentsSet(GenericEquality):
                 rem(x)
 
     def intersection(self, other):
-        return contentsSet((x for x in other if x in self), mutable=self.mutable)
+        # entries of other are kept as is (callers rely on that); paths yield our entry
+        return contentsSet(
+            (x if fs.isfs_obj(x) else self[x] for x in other if x in self),
+            mutable=self.mutable,
+        )
 
     def intersection_update(self, other):
         if not self.mutable:
             raise TypeError(f"immutable type {self!r}")
-        if not hasattr(other, "__contains__"):
-            other = set(self._convert_loc(other))
+        other = self._location_lookup(other)
 
         l = [x for x in self if x.location not in other]
         for x in l:
             self.remove(x)
 
     def issubset(self, other):
-        if not hasattr(other, "__contains__"):
-            other = set(self._convert_loc(other))
+        other = self._location_lookup(other)
         return all(x in other for x in self._dict)
 
     def issuperset(self, other):
@@ -182,8 +190,7 @@ class contentsSet(GenericEquality):
         return all(x in self for x in other)
 
     def isdisjoint(self, other):
-        if not hasattr(other, "__contains__"):
-            other = set(self._convert_loc(other))
+        other = self._location_lookup(other)
         return not any(x in other for x in self._dict)
 
     def union(self, other):
